@@ -202,6 +202,9 @@ static DecRun run_dec(const RunCfg &cfg, const Bytes &z, size_t out_hint, Ctx &c
     static const Bytes first = bz::libbz2_encode(Bytes("the first operand of this invocation is a small valid file\n"), 3);
     FileSpec g; g.name = "g.bz2"; g.data = first; files.push_back(g);
   }
+  // keep the number of output buffers bounded: a mutated 208-byte stream can expand to 26 MB, which with 1-byte output buffers is
+  // 143 million decision steps (45 s) for nothing; out_hint is the reference decoder's output size, so this is a function of the case
+  while (r.out_granul && out_hint / r.out_granul > 50000) r.out_granul *= 4;
   r.step_budget = budget_for(z.size(), r.in_granul ? r.in_granul : 262144, out_hint + 1000, r.out_granul ? r.out_granul : 900000, 100);
   x.r = exec(r, x.operand ? Bytes() : z, files, ctx);
   if (x.operand) {
@@ -386,7 +389,7 @@ Verdict C07::eval(const Case &c, Ctx &ctx) const {
       for (size_t k = 0; k < c.runs.size(); k++) {
         RunCfg r = c.runs[k];
         r.sched.seed = sim::mix64(r.sched.seed, len);
-        DecRun x = run_dec(r, z, 4000, ctx);
+        DecRun x = run_dec(r, z, d.out.size() + 4000, ctx);
         Verdict v = judge_invalid(x, r, d.reason);
         if (!v.ok()) { v.msg = "truncated to " + std::to_string(len) + " of " + std::to_string(c.data.size()) + " bytes: " + v.msg; v.narrow["only"] = (int64_t)len; return v; }
         if (ctx.st) { ctx.st->inc("fault_fired.truncation"); ctx.st->distinct("nontrivial", sim::fnv(sim::hash_bytes(z.data(), z.size()), k)); }
@@ -399,7 +402,7 @@ Verdict C07::eval(const Case &c, Ctx &ctx) const {
   if (o.uncertain) { if (ctx.st) ctx.st->inc("oracle.uncertain_skipped"); return Verdict(); }
   if (o.d.verdict != bz::V_INVALID) { if (ctx.st) ctx.st->inc("oracle.not_invalid_skipped"); return Verdict(); }
   for (auto &cfg : c.runs) {
-    DecRun x = run_dec(cfg, c.data, 4000, ctx);
+    DecRun x = run_dec(cfg, c.data, o.d.out.size() + 4000, ctx);
     if (Verdict v = judge_invalid(x, cfg, o.d.reason); !v.ok()) return v;
   }
   if (ctx.st) {
